@@ -333,7 +333,71 @@ def gen_arrays(rep, tier):
                     els = [scale_el(e, 0.1) for e in els]   # not dyadic-friendly: outside the regime
                     tag += '-decimal'
                 out.append((kind, st, els, rng.randint(0, 2), tag))
+    # (c) the same kind of data far from the origin: power-of-two extents 1, 2, 4, 8, ... at
+    #     power-of-two offsets 2^10 .. 2^40 (both signs, both axes independently); projected
+    #     coordinates with a large false easting look like this.  A relative-tolerance test of
+    #     "zero extent" or any loss of translation invariance shows here and not near the origin.
+    nofs = 6 if tier == 'quick' else 60
+    for kind in G.KINDS:
+        for st in G.SUBTYPES:
+            kmax = {'float64': 40, 'int64': 40, 'int32': 29, 'float32': 20, 'int16': 13}[st]
+            for it in range(nofs):
+                kx = 10 + (it * 7 + rng.randint(0, 5)) % (kmax - 9)
+                ky = rng.randint(10, kmax)
+                if rng.random() < 0.25:
+                    ky = 0 if rng.random() < 0.5 else kx      # one axis near the origin / same offset
+                ox = rng.choice([1, -1]) * (1 << kx) + rng.choice([0, 0, 3, -5])
+                oy = (rng.choice([1, -1]) * (1 << ky) + rng.choice([0, 0, 2, -7])) if ky else rng.randint(-4, 4)
+                width = 1 << rng.choice([0, 1, 2, 2, 3, 4, 6])
+                height = 1 << rng.choice([0, 1, 2, 2, 3, 4, 6])
+                if st == 'int16':
+                    width, height = min(width, 16), min(height, 16)
+                n = rng.choice([1, 2, 3, 5, 8])
+                els = [fit(G.rand_element(rng, kind, lo=0, hi=max(width, height), nan_p=0.0),
+                           0, 0, width, height) for _ in range(n)]
+                tag = 'offset'
+                if rng.random() < 0.7:
+                    els = els + frame_elements(kind, 0, 0, width, height)
+                    rng.shuffle(els)
+                    tag = 'offset-framed'
+                if st == 'float64' and kx <= 36 and (ky <= 36) and rng.random() < 0.5:
+                    f = rng.choice([0.5, 0.25, 0.125])
+                    els = [scale_el(e, f) for e in els]
+                    width, height = width * f, height * f
+                    tag += '-dyadic'
+                els = [translate_el(e, ox, oy) for e in els]
+                out.append((kind, st, els, rng.randint(0, 1), tag, (ox, oy, width, height)))
     return out
+
+
+def translate_el(el, dx, dy):
+    """the element moved by (dx, dy); non-finite coordinates stay"""
+    if el is None:
+        return None
+    if isinstance(el, list) and el and isinstance(el[0], list):
+        return [translate_el(x, dx, dy) for x in el]
+    out = []
+    for i, v in enumerate(el):
+        if isinstance(v, float) and not math.isfinite(v):
+            out.append(v)
+        else:
+            out.append(v + (dx if i % 2 == 0 else dy))
+    return out
+
+
+def apply_derivation(arr, desc):
+    for d in desc:
+        if d[0] == 'slice':
+            arr = arr[d[1]:d[2]]
+        elif d[0] == 'take':
+            arr = arr.take(np.array(d[1], dtype='int64'))
+        elif d[0] == 'rotate':
+            arr = type(arr)._concat_same_type([arr[d[1]:], arr[:d[1]]])
+        elif d[0] == 'mask':
+            arr = arr[np.array(d[1], dtype=bool)]
+        elif d[0] == 'rev':
+            arr = arr[::-1]
+    return arr
 
 
 def fit(el, x0, y0, w, h):
@@ -353,7 +417,7 @@ def fit(el, x0, y0, w, h):
     return out
 
 
-def tb_variants(rng, arr, tag):
+def tb_variants(rng, arr, tag, frame=None):
     """(label, four floats or None for default)"""
     tb = [float(v) for v in arr.total_bounds]
     fin = all(math.isfinite(v) for v in tb)
@@ -368,6 +432,15 @@ def tb_variants(rng, arr, tag):
                 [('pow2', [-4.0, -4.0, 4.0, 12.0], q) for q in (31, 10)] +
                 [('default', None, q) for q in (31, 15)])
     x0, y0, x1, y1 = tb
+    if tag.startswith('offset') and frame is not None:
+        ox, oy, w, h = [float(v) for v in frame]
+        out.append(('own', tb))
+        out.append(('offset-frame', [ox, oy, ox + w, oy + h]))               # exactly the box
+        out.append(('offset-inner', [ox + w / 2, oy, ox + w, oy + h / 2]))   # data partly outside
+        out.append(('offset-wide', [ox - w, oy - 2 * h, ox + 3 * w, oy + 2 * h]))
+        if rng.random() < 0.5:
+            out.append(('offset-degenerate', [ox, oy, ox, oy + h]))
+        return out
     out.append(('own', tb))
     kx, ky = rng.randint(-3, 8), rng.randint(-3, 8)
     ax, ay = math.floor(x0) - rng.randint(0, 3), math.floor(y0) - rng.randint(0, 3)
@@ -394,7 +467,11 @@ def run(rep):
     rep.rule = ('arrays of all 7 kinds x 5 subtypes (integer / dyadic / decimal coordinates inside a box '
                 'with power-of-two extents, optional frame element, missing / empty / NaN elements, 0-2 '
                 'derivation steps) plus a fixed corpus (empty, all-missing, single point, horizontal, '
-                'vertical, far outside: 2^32 @ p=31, 2^53, 1e30); total_bounds default / own / power-of-two '
+                'vertical, far outside: 2^32 @ p=31, 2^53, 1e30) plus arrays of every kind x subtype with '
+                'power-of-two extents 1..64 at power-of-two offsets 2^10..2^40 (both signs, axes '
+                'independent; total_bounds = own / exact frame / inner / wide / degenerate); every 6th call '
+                'and every offset case is repeated on data + total_bounds translated by +-2^10..2^36 '
+                '(identical distances required in the exact regime); total_bounds default / own / power-of-two '
                 'box / degenerate in x, y, both / reversed / disjoint / inexact, passed as ' +
                 ', '.join(SEQ_FORMS) + '; p in 1..31 (seeded, every value used); one evaluation = one '
                 'hilbert_distance call; non-trivial = at least one row answered by the model '
@@ -403,7 +480,9 @@ def run(rep):
     cases, results, metas = [], [], []
     pcycle = 0
     from spatialpandas import GeoSeries
-    for kind, st, els, nder, tag in gen_arrays(rep, tier):
+    for item in gen_arrays(rep, tier):
+        kind, st, els, nder, tag = item[:5]
+        frame = item[5] if len(item) > 5 else None
         try:
             arr = G.make_array(kind, els, st)
         except Exception as e:
@@ -417,7 +496,7 @@ def run(rep):
             rep.count('bounds_error:' + type(e).__name__)
             continue
         rep.count(kind)
-        for variant in tb_variants(rng, arr, tag):
+        for variant in tb_variants(rng, arr, tag, frame):
             label, vals = variant[0], variant[1]
             pcycle += 1
             p = (pcycle % 31) + 1 if rng.random() < 0.7 else rng.choice([1, 2, 10, 15, 30, 31])
@@ -465,6 +544,8 @@ def run(rep):
                     invariance(rep, rng, meta, arr, tbobj, vals, p, res)
                 if rep.evaluations % 23 == 0:
                     series_agrees(rep, meta, arr, tbobj, p, res)
+                if tag.startswith('offset') or rep.evaluations % 6 == 0:
+                    translation(rep, rng, meta, kind, st, els, desc, bounds, tbobj, vals, p, res, mask)
                 # ---- the model
                 if s > MAX_SCALE_BITS:
                     rep.count('scale_too_fine_not_modelled')
@@ -612,6 +693,56 @@ def invariance(rep, rng, meta, arr, tbobj, vals, p, res):
                       {**meta, 'cuts': cuts, 'impl': res, 'partitioned': r})
 
 
+def translation(rep, rng, meta, kind, st, els, desc, bounds, tbobj, vals, p, res, mask):
+    """the same data moved by a large exactly representable offset, together with its total_bounds,
+    gets identical distances (rows in the exact regime before and after the move)"""
+    kmax = {'float64': 36, 'int64': 36, 'int32': 28, 'float32': 18, 'int16': 12}[st]
+    dx = rng.choice([1, -1]) * (1 << rng.randint(10, kmax))
+    dy = rng.choice([1, -1]) * (1 << rng.randint(10, kmax)) if rng.random() < 0.8 else 0
+    try:
+        moved = apply_derivation(G.make_array(kind, [translate_el(e, dx, dy) for e in els], st), desc)
+        mb = np.asarray(moved.bounds, dtype='float64').reshape(-1, 4).tolist()
+    except Exception:
+        rep.count('translation_not_representable')
+        return
+    # the move must be exact on every finite bound (else the subtype cannot hold the moved data)
+    for r0, r1 in zip(bounds, mb):
+        for k, (a, b) in enumerate(zip(r0, r1)):
+            if math.isfinite(a) != math.isfinite(b) or \
+                    (math.isfinite(a) and Fraction(b) != Fraction(a) + (dx if k % 2 == 0 else dy)):
+                rep.count('translation_not_representable')
+                return
+    if vals is None:
+        mobj, mvals = None, None
+    elif not all(math.isfinite(v) for v in vals):
+        rep.count('translation_not_representable')
+        return
+    else:
+        mvals = [vals[0] + dx, vals[1] + dy, vals[2] + dx, vals[3] + dy]
+        if any(Fraction(m) != Fraction(v) + (dx if k % 2 == 0 else dy)
+               for k, (v, m) in enumerate(zip(vals, mvals))):
+            rep.count('translation_not_representable')
+            return
+        mobj = tuple(mvals)
+    r2, exc, _ = call_impl(moved, mobj, p)
+    rep.evaluations += 1
+    if exc is not None:
+        rep.violation(f'raises:{exc}', f'hilbert_distance raised {exc} on translated data',
+                      {**meta, 'translation': [dx, dy]})
+        return
+    mtb = effective_tb(moved, mobj)
+    s2 = case_scale(mb, [v for v in mtb if math.isfinite(v)])
+    mask2 = regime_mask(mb, mtb, s2) if s2 <= MAX_SCALE_BITS else [False] * len(mb)
+    both = [i for i in range(len(res)) if i < len(r2) and mask[i] and mask2[i]]
+    rep.count('translation_rows_compared', len(both))
+    if len(r2) != len(res) or any(res[i] != r2[i] for i in both):
+        i = next((i for i in both if res[i] != r2[i]), 0)
+        rep.violation('invariance:translation',
+                      'moving the data and total_bounds by the same exactly representable offset '
+                      'changed a hilbert distance (exact regime)',
+                      {**meta, 'translation': [dx, dy], 'row': i, 'impl': res, 'translated': r2})
+
+
 def series_agrees(rep, meta, arr, tbobj, p, res):
     from spatialpandas import GeoSeries
     r, exc, unchanged = call_impl(arr, tbobj, p, via='series')
@@ -644,18 +775,8 @@ def replay(rep, rp):
         return e
     kind, st = rp['kind'], rp['subtype']
     els = un(rp['elements'])
-    arr = G.make_array(kind, els, st)
-    for d in rp.get('derivation', []):
-        if d[0] == 'slice':
-            arr = arr[d[1]:d[2]]
-        elif d[0] == 'take':
-            arr = arr.take(np.array(d[1], dtype='int64'))
-        elif d[0] == 'rotate':
-            arr = type(arr)._concat_same_type([arr[d[1]:], arr[:d[1]]])
-        elif d[0] == 'mask':
-            arr = arr[np.array(d[1], dtype=bool)]
-        elif d[0] == 'rev':
-            arr = arr[::-1]
+    desc = rp.get('derivation', [])
+    arr = apply_derivation(G.make_array(kind, els, st), desc)
     p = int(rp['p'])
     vals = un(rp['tb_values']) if rp.get('tb_values') is not None else None
     form = rp.get('tb_form')
@@ -685,6 +806,8 @@ def replay(rep, rp):
         check_cells(rep, meta, bounds, tbvals, p, res, 'replay', mask)
         invariance(rep, rep.rng, meta, arr, tbobj, vals, p, res)
         series_agrees(rep, meta, arr, tbobj, p, res)
+        for _ in range(6):
+            translation(rep, rep.rng, meta, kind, st, els, desc, bounds, tbobj, vals, p, res, mask)
         for f in SEQ_FORMS:
             o = make_seq(f, vals) if vals is not None else None
             if o is not None:
